@@ -12,6 +12,11 @@ use tokio::net::{TcpListener, TcpStream, UnixStream};
 use zeromq::prelude::*;
 use zeromq::*;
 
+/// watchdog of the flood driver: FLOOD_ACTIVE while the receive loop runs, FLOOD_PROGRESS bumped whenever recv returns
+/// (or times out); a thread in main exits the process with code 3 when the loop has not come back for 40 s
+pub static FLOOD_ACTIVE: std::sync::atomic::AtomicBool = std::sync::atomic::AtomicBool::new(false);
+pub static FLOOD_PROGRESS: std::sync::atomic::AtomicUsize = std::sync::atomic::AtomicUsize::new(0);
+
 pub const SETTLE: Duration = Duration::from_secs(10);
 const STEP: Duration = Duration::from_millis(20);
 
@@ -427,6 +432,9 @@ pub async fn run_net_scenario(sc: &Value, workdir: &str) -> Vec<Value> {
                 let n = op.get("clients").and_then(|v| v.as_u64()).unwrap_or(3) as i64;
                 let kmsgs = op.get("msgs").and_then(|v| v.as_u64()).unwrap_or(20) as usize;
                 let seed = op.get("seed").and_then(|v| v.as_u64()).unwrap_or(1);
+                // backlog mode: big messages, writers never pause, the application starts receiving late and then calls recv
+                // back to back: the receive loop is always ready and never has to park
+                let big = op.get("backlog").and_then(|v| v.as_bool()).unwrap_or(false);
                 let log: std::sync::Arc<std::sync::Mutex<Vec<Value>>> = Default::default();
                 let mut handles = vec![];
                 let mut ready = 0;
@@ -449,7 +457,11 @@ pub async fn run_net_scenario(sc: &Value, workdir: &str) -> Vec<Value> {
                         for j in 1..=kmsgs {
                             let tag = format!("c{}m{}", c, j).into_bytes();
                             let mut frames = app_msg(&st, &tag);
-                            if st != "XPUB" && rng.below(3) == 0 {
+                            if big && st != "XPUB" {
+                                // every message is larger than the reader's buffer: at least one read system call per message
+                                frames.push(vec![b'B'; 12000]);
+                                frames.push(tag.clone());
+                            } else if st != "XPUB" && rng.below(3) == 0 {
                                 frames.push(vec![b'z'; [0usize, 1, 255, 256, 9000][rng.below(5) as usize]]);
                                 frames.push(tag.clone());
                             }
@@ -457,17 +469,17 @@ pub async fn run_net_scenario(sc: &Value, workdir: &str) -> Vec<Value> {
                             log2.lock().unwrap().push(json!({"ev":"peer_wrote","c":c,"m":rc::mdesc(&frames)}));
                             let mut off = 0;
                             while off < bytes.len() {
-                                let lim = if rng.below(4) == 0 { 7 } else { 4000 };
+                                let lim = if big { 60000 } else if rng.below(4) == 0 { 7 } else { 4000 };
                                 let step = (1 + rng.below(lim) as usize).min(bytes.len() - off);
                                 if cl.raw.write_all(&bytes[off..off + step]).await.is_err() {
                                     return cl;
                                 }
                                 off += step;
-                                if rng.below(5) == 0 {
+                                if !big && rng.below(5) == 0 {
                                     tokio::task::yield_now().await;
                                 }
                             }
-                            if rng.below(10) == 0 {
+                            if !big && rng.below(10) == 0 {
                                 tokio::time::sleep(Duration::from_millis(rng.below(3))).await;
                             }
                         }
@@ -479,7 +491,12 @@ pub async fn run_net_scenario(sc: &Value, workdir: &str) -> Vec<Value> {
                 let mut got = 0usize;
                 let hard = tokio::time::Instant::now() + Duration::from_secs(60);
                 let mut pending_at_end = false;
+                if big {
+                    tokio::time::sleep(Duration::from_millis(400)).await;
+                }
+                FLOOD_ACTIVE.store(true, std::sync::atomic::Ordering::SeqCst);
                 while got < total && tokio::time::Instant::now() < hard {
+                    FLOOD_PROGRESS.fetch_add(1, std::sync::atomic::Ordering::SeqCst);
                     log.lock().unwrap().push(json!({"ev":"recv_call"}));
                     let f = sock.as_mut().unwrap().recv().unwrap();
                     match tokio::time::timeout(Duration::from_secs(5), f).await {
@@ -497,6 +514,7 @@ pub async fn run_net_scenario(sc: &Value, workdir: &str) -> Vec<Value> {
                         }
                     }
                 }
+                FLOOD_ACTIVE.store(false, std::sync::atomic::Ordering::SeqCst);
                 let mut k2 = 100;
                 for h in handles {
                     if let Ok(cl) = h.await {
